@@ -27,6 +27,8 @@ fn table(id: &str) -> Option<(RunFn, ReplayFn)> {
     Some(match id {
         "C01" => (props::c01::run, props::c01::replay),
         "C06" => (props::c06::run, props::c06::replay),
+        "C07" => (props::c07::run, props::c07::replay),
+        "C08" => (props::c08::run, props::c08::replay),
         "C15" => (props::c15::run, props::c15::replay),
         _ => return None,
     })
